@@ -17,9 +17,11 @@
 package aqua
 
 import (
+	"bytes"
 	"encoding/json"
 	"errors"
 	"fmt"
+	"io"
 	"math"
 	"math/big"
 	"sync"
@@ -295,6 +297,30 @@ func (pm *ProtocolManager) handle(p *peer) error {
 	}
 }
 
+// decodeReply decodes a reply message (a list) after checking that it does not
+// hold more elements than this node ever asks for in one request. Without the
+// check a message within the size limit that consists of millions of empty
+// elements makes the decoder allocate a hundred times the message size.
+// The caller has already checked msg.Size against ProtocolMaxMsgSize.
+func decodeReply(msg p2p.Msg, max int, val interface{}) error {
+	buf := make([]byte, msg.Size)
+	if _, err := io.ReadFull(msg.Payload, buf); err != nil {
+		return err
+	}
+	content, _, err := rlp.SplitList(buf)
+	if err != nil {
+		return err
+	}
+	n, err := rlp.CountValues(content)
+	if err != nil {
+		return err
+	}
+	if n > max {
+		return fmt.Errorf("reply holds %d elements, at most %d are ever requested", n, max)
+	}
+	return rlp.NewStream(bytes.NewReader(buf), uint64(len(buf))).Decode(val)
+}
+
 // handleMsg is invoked whenever an inbound message is received from a remote
 // peer. The remote connection is torn down upon returning any error.
 func (pm *ProtocolManager) handleMsg(p *peer) error {
@@ -441,7 +467,7 @@ func (pm *ProtocolManager) handleMsg(p *peer) error {
 	case msg.Code == BlockBodiesMsg:
 		// A batch of block bodies arrived to one of our previous requests
 		var request blockBodiesData
-		if err := msg.Decode(&request); err != nil {
+		if err := decodeReply(msg, downloader.MaxBlockFetch, &request); err != nil {
 			return errResp(ErrDecode, "msg %v: %v", msg, err)
 		}
 		// Deliver them all to the downloader for queuing
@@ -494,7 +520,7 @@ func (pm *ProtocolManager) handleMsg(p *peer) error {
 	case msg.Code == NodeDataMsg:
 		// A batch of node state data arrived to one of our previous requests
 		var data [][]byte
-		if err := msg.Decode(&data); err != nil {
+		if err := decodeReply(msg, downloader.MaxStateFetch, &data); err != nil {
 			return errResp(ErrDecode, "msg %v: %v", msg, err)
 		}
 		// Deliver all to the downloader
@@ -541,7 +567,7 @@ func (pm *ProtocolManager) handleMsg(p *peer) error {
 	case msg.Code == ReceiptsMsg:
 		// A batch of receipts arrived to one of our previous requests
 		var receipts [][]*types.Receipt
-		if err := msg.Decode(&receipts); err != nil {
+		if err := decodeReply(msg, downloader.MaxReceiptFetch, &receipts); err != nil {
 			return errResp(ErrDecode, "msg %v: %v", msg, err)
 		}
 		// Deliver all to the downloader
